@@ -390,6 +390,13 @@ def parts(tier):
         lo, hi = W.value_range(2)
         for samples in ((hi, lo, hi, lo), (lo,) * 6, (hi,) * 6 + (lo,), (0,) * 7, (5, 5, 5, 0, 5, 5, 5, 5, 5)):
             yield (2, 1000, samples)
+        # values that need more than one byte: the packed bytes of two neighbouring samples contain runs of zero BYTES that are no zero SAMPLE
+        # (200 = c8 00 next to 512 = 00 02; 77 next to 65536 in 32 bit) - a crossing is a property of samples
+        for n in (2, 3, 4):
+            for samples in itertools.product((200, 512, -768, 256), repeat=n):
+                yield (2, 8, samples)
+            for samples in itertools.product((77, 65536, -16777216), repeat=n):
+                yield (4, 8, samples)
 
     def gen_tgzc():
         for ivs in D.interval_sets(TG_GRID, 2):
